@@ -201,4 +201,234 @@ theorem pack_unpack (hE : 2 ≤ spec.exponentBits) (b : BitVec spec.numBits) (hv
       · unfold Format.exponentBias
         omega
 
+/-! ## `unpack ∘ pack` on canonical floats -/
+
+/-- the three fields of a sum of fields. -/
+theorem fields_of_sum {M E t ef fr : Nat} (hef : ef < 2 ^ E) (hfr : fr < 2 ^ M) :
+    (t * 2 ^ (E + M) + ef * 2 ^ M + fr) % 2 ^ M = fr ∧
+    (t * 2 ^ (E + M) + ef * 2 ^ M + fr) / 2 ^ M % 2 ^ E = ef ∧
+    (t * 2 ^ (E + M) + ef * 2 ^ M + fr) / 2 ^ (M + E) = t := by
+  have hM : 0 < 2 ^ M := Nat.pow_pos (by decide)
+  have hEp : 0 < 2 ^ E := Nat.pow_pos (by decide)
+  have h0 : t * 2 ^ (E + M) + ef * 2 ^ M + fr = 2 ^ M * (2 ^ E * t + ef) + fr := by
+    rw [Nat.mul_add, ← Nat.mul_assoc, ← Nat.pow_add, Nat.mul_comm (2 ^ (M + E)), Nat.add_comm M E,
+      Nat.mul_comm (2 ^ M) ef]
+  have h1 : (t * 2 ^ (E + M) + ef * 2 ^ M + fr) / 2 ^ M = 2 ^ E * t + ef := by
+    rw [h0, Nat.mul_add_div hM, Nat.div_eq_of_lt hfr, Nat.add_zero]
+  refine ⟨?_, ?_, ?_⟩
+  · rw [h0, Nat.mul_add_mod, Nat.mod_eq_of_lt hfr]
+  · rw [h1, Nat.mul_add_mod, Nat.mod_eq_of_lt hef]
+  · rw [show (2 : Nat) ^ (M + E) = 2 ^ M * 2 ^ E from Nat.pow_add .., ← Nat.div_div_eq_div_mul, h1,
+      Nat.mul_add_div hEp, Nat.div_eq_of_lt hef, Nat.add_zero]
+
+theorem signOf_sign (s : Sign) : signOf s.toBitVec.toNat = s := by cases s <;> rfl
+
+theorem unpackNat_sum_normal {M E : Nat} (s : Sign) {ef fr : Nat} (hef : ef < 2 ^ E - 1) (hef0 : 0 < ef)
+    (hfr : fr < 2 ^ M) :
+    unpackNat M E (s.toBitVec.toNat * 2 ^ (E + M) + ef * 2 ^ M + fr) =
+      .finite s (2 ^ M + fr) ((ef : Int) - (((2 ^ (E - 1) - 1 : Nat) : Int) + (M : Int)))
+        (Nat.add_pos_left (Nat.pow_pos (by decide)) _) := by
+  obtain ⟨h1, h2, h3⟩ := fields_of_sum (t := s.toBitVec.toNat) (show ef < 2 ^ E by omega) hfr
+  unfold unpackNat
+  simp only [h1, h2, h3, signOf_sign]
+  rw [if_neg (by omega), if_neg (by omega)]
+
+theorem unpackNat_sum_subnormal {M E : Nat} (s : Sign) {fr : Nat} (hE : 2 ≤ E) (hfr : fr < 2 ^ M) (hfr0 : 0 < fr) :
+    unpackNat M E (s.toBitVec.toNat * 2 ^ (E + M) + 0 * 2 ^ M + fr) =
+      .finite s fr (1 - (((2 ^ (E - 1) - 1 : Nat) : Int) + (M : Int))) hfr0 := by
+  have h4 := four_le_pow hE
+  obtain ⟨h1, h2, h3⟩ := fields_of_sum (t := s.toBitVec.toNat) (show 0 < 2 ^ E by omega) hfr
+  unfold unpackNat
+  simp only [h1, h2, h3, signOf_sign]
+  rw [if_neg (by omega), if_pos trivial, dif_neg (by omega)]
+  congr 1
+  omega
+
+/-- a canonical normal float survives `pack` then `unpack`. -/
+theorem unpack_pack_normal (hE : 2 ≤ spec.exponentBits) (s : Sign) (m : Nat) (e : Int) (hm : 0 < m)
+    (h1 : 2 ^ spec.mantissaBitsWithoutImplicit ≤ m) (h2 : m < 2 ^ (spec.mantissaBitsWithoutImplicit + 1))
+    (h3 : 0 < e + (spec.exponentBias : Int) + (spec.mantissaBitsWithoutImplicit : Int))
+    (h4 : e + (spec.exponentBias : Int) + (spec.mantissaBitsWithoutImplicit : Int) <
+      ((2 ^ spec.exponentBits - 1 : Nat) : Int)) :
+    UnpackedFloat.unpack spec (pack spec (.finite s m e hm)) = .finite s m e hm := by
+  have h4' := four_le_pow hE
+  rw [Nat.pow_succ] at h2
+  rw [pack_finite, if_neg (by omega), if_pos, unpack_eq_unpackNat, toNat_packComponents, BitVec.toNat_ofNat,
+    BitVec.toNat_ofNat, Nat.mod_eq_of_lt (a := Int.toNat _) (by omega),
+    unpackNat_sum_normal s (by omega) (by omega) (Nat.mod_lt _ (Nat.pow_pos (by decide)))]
+  · congr 1
+    · have := Nat.div_add_mod m (2 ^ spec.mantissaBitsWithoutImplicit)
+      have hq : m / 2 ^ spec.mantissaBitsWithoutImplicit = 1 := by
+        apply Nat.div_eq_of_lt_le <;> omega
+      rw [hq] at this
+      omega
+    · unfold Format.exponentBias at *
+      omega
+  · unfold Format.mantissaBits
+    have : m.log2 = spec.mantissaBitsWithoutImplicit := by
+      rw [Nat.log2_eq_iff (by omega), Nat.pow_succ]
+      omega
+    omega
+
+/-- a canonical subnormal float survives `pack` then `unpack`. -/
+theorem unpack_pack_subnormal (hE : 2 ≤ spec.exponentBits) (s : Sign) (m : Nat) (e : Int) (hm : 0 < m)
+    (h1 : m < 2 ^ spec.mantissaBitsWithoutImplicit)
+    (h2 : e = 1 - ((spec.exponentBias : Int) + (spec.mantissaBitsWithoutImplicit : Int))) :
+    UnpackedFloat.unpack spec (pack spec (.finite s m e hm)) = .finite s m e hm := by
+  have h4' := four_le_pow hE
+  subst h2
+  rw [pack_finite, if_neg (by omega), if_neg, unpack_eq_unpackNat, toNat_packComponents, BitVec.toNat_ofNat,
+    BitVec.toNat_ofNat, Nat.zero_mod, Nat.mod_eq_of_lt h1, unpackNat_sum_subnormal s hE h1 hm]
+  · rfl
+  · unfold Format.mantissaBits
+    have := (Nat.log2_lt (by omega : m ≠ 0)).mpr h1
+    omega
+
+theorem unpack_pack_zero (hE : 2 ≤ spec.exponentBits) (s : Sign) :
+    UnpackedFloat.unpack spec (pack spec (.zero s)) = .zero s := by
+  have h4' := four_le_pow hE
+  show UnpackedFloat.unpack spec (packComponents spec s 0 0) = _
+  rw [unpack_eq_unpackNat, toNat_packComponents]
+  obtain ⟨h1, h2, h3⟩ := fields_of_sum (M := spec.mantissaBitsWithoutImplicit) (E := spec.exponentBits)
+    (t := s.toBitVec.toNat) (ef := 0) (fr := 0) (by omega) (Nat.pow_pos (by decide))
+  unfold unpackNat
+  rw [show (0 : BitVec spec.exponentBits).toNat = 0 from rfl,
+    show (0 : BitVec spec.mantissaBitsWithoutImplicit).toNat = 0 from rfl]
+  simp only [h1, h2, h3, signOf_sign]
+  rw [if_neg (by omega), if_pos trivial, dif_pos trivial]
+
+theorem unpack_pack_infinity (s : Sign) :
+    UnpackedFloat.unpack spec (pack spec (.infinity s)) = .infinity s := by
+  show UnpackedFloat.unpack spec (packComponents spec s (-1#_) 0) = _
+  rw [unpack_eq_unpackNat, toNat_packComponents, toNat_negOne]
+  obtain ⟨h1, h2, h3⟩ := fields_of_sum (M := spec.mantissaBitsWithoutImplicit) (E := spec.exponentBits)
+    (t := s.toBitVec.toNat) (ef := 2 ^ spec.exponentBits - 1) (fr := 0)
+    (by have : 0 < 2 ^ spec.exponentBits := Nat.pow_pos (by decide); omega) (Nat.pow_pos (by decide))
+  unfold unpackNat
+  rw [show (0 : BitVec spec.mantissaBitsWithoutImplicit).toNat = 0 from rfl]
+  simp only [h1, h2, h3, signOf_sign]
+  rw [if_pos trivial, if_pos trivial]
+
+/-! ## NaN patterns -/
+
+theorem unpackNat_isNaN (M E n : Nat) :
+    (unpackNat M E n).isNaN = true ↔ (n / 2 ^ M % 2 ^ E = 2 ^ E - 1 ∧ n % 2 ^ M ≠ 0) := by
+  unfold unpackNat
+  split
+  · rename_i he
+    split
+    · rename_i hm; simp [UnpackedFloat.isNaN, hm]
+    · rename_i hm; simp [UnpackedFloat.isNaN, hm, he]
+  · rename_i he
+    split
+    · split <;> simp [UnpackedFloat.isNaN, he]
+    · simp [UnpackedFloat.isNaN, he]
+
+/-- a pattern that does not encode a NaN is valid. -/
+theorem valid_of_not_nan (b : BitVec spec.numBits)
+    (h : ¬ (b.toNat / 2 ^ spec.mantissaBitsWithoutImplicit % 2 ^ spec.exponentBits = 2 ^ spec.exponentBits - 1 ∧
+      b.toNat % 2 ^ spec.mantissaBitsWithoutImplicit ≠ 0)) : spec.Valid b := by
+  refine ⟨fun he hm => absurd ⟨?_, ?_⟩ h⟩
+  · rw [← toNat_unpackExponent, he, toNat_negOne]
+  · rw [← toNat_unpackMantissa]
+    intro h0
+    exact hm ((bv_eq_zero_iff _).mpr h0)
+
+/-! ## `Float` (binary64) -/
+
+theorem float_unpack (x : Float) : x.toModel.unpack = unpackNat 52 11 x.toBits.toNat :=
+  unpack_eq_unpackNat (spec := Format.binary64) x.toModel.toBits.toBitVec
+
+/-- **`ofBits ∘ toBits` is the identity on every `Float`** (NaN included: a model value only holds the canonical NaN). -/
+theorem float_ofBits_toBits (x : Float) : Float.ofBits x.toBits = x := by
+  obtain ⟨⟨bits, valid⟩⟩ := x
+  show Float.ofModel ⟨UInt64.ofBitVec (pack Format.binary64 (UnpackedFloat.unpack Format.binary64 bits.toBitVec)), _⟩ = _
+  congr 2
+  rw [pack_unpack (by decide) _ valid]
+
+theorem float_isNaN_iff (x : Float) :
+    x.isNaN = true ↔ (x.toBits.toNat / 2 ^ 52 % 2 ^ 11 = 2047 ∧ x.toBits.toNat % 2 ^ 52 ≠ 0) := by
+  show x.toModel.unpack.isNaN = true ↔ _
+  rw [float_unpack, unpackNat_isNaN]
+
+/-- a non-NaN `Float` does not have a NaN pattern (in the sense of Model/FloatCodec.lean: magnitude above `infBits`). -/
+theorem float_not_nan_pattern (x : Float) (h : x.isNaN = false) :
+    x.toBits.toNat % 2 ^ 63 ≤ 0x7FF0000000000000 := by
+  have : ¬ _ := fun hc => absurd ((float_isNaN_iff x).mpr hc) (by rw [h]; decide)
+  have hlt := x.toBits.toNat_lt
+  simp only [Nat.reducePow] at *
+  omega
+
+/-- and conversely. -/
+theorem float_isNaN_of_pattern (x : Float) (h : x.isNaN = true) : 0x7FF0000000000000 < x.toBits.toNat % 2 ^ 63 := by
+  have := (float_isNaN_iff x).mp h
+  simp only [Nat.reducePow] at *
+  omega
+
+/-- **non-NaN patterns survive `ofBits`.** -/
+theorem float_toBits_ofBits (u : UInt64) (h : u.toNat % 2 ^ 63 ≤ 0x7FF0000000000000) : (Float.ofBits u).toBits = u := by
+  show UInt64.ofBitVec (pack Format.binary64 (UnpackedFloat.unpack Format.binary64 u.toBitVec)) = u
+  rw [pack_unpack (by decide)]
+  apply valid_of_not_nan
+  show ¬ (u.toNat / 2 ^ 52 % 2 ^ 11 = 2 ^ 11 - 1 ∧ u.toNat % 2 ^ 52 ≠ 0)
+  simp only [Nat.reducePow] at *
+  omega
+
+theorem float_toBits_ofBits_nat (b : Nat) (hb : b < 2 ^ 64) (h : b % 2 ^ 63 ≤ 0x7FF0000000000000) :
+    (Float.ofBits (UInt64.ofNat b)).toBits.toNat = b := by
+  have h1 : (UInt64.ofNat b).toNat = b := by
+    rw [UInt64.toNat_ofNat']; exact Nat.mod_eq_of_lt hb
+  rw [float_toBits_ofBits _ (by rw [h1]; exact h), h1]
+
+/-- the `unpack` of `ofBits` of a non-NaN pattern. -/
+theorem float_unpack_ofBits (u : UInt64) (h : u.toNat % 2 ^ 63 ≤ 0x7FF0000000000000) :
+    (Float.ofBits u).toModel.unpack = unpackNat 52 11 u.toNat := by
+  rw [float_unpack, float_toBits_ofBits u h]
+
+/-! ## `Float32` (binary32) -/
+
+theorem float32_unpack (x : Float32) : x.toModel.unpack = unpackNat 23 8 x.toBits.toNat :=
+  unpack_eq_unpackNat (spec := Format.binary32) x.toModel.toBits.toBitVec
+
+/-- **`ofBits ∘ toBits` is the identity on every `Float32`.** -/
+theorem float32_ofBits_toBits (x : Float32) : Float32.ofBits x.toBits = x := by
+  obtain ⟨⟨bits, valid⟩⟩ := x
+  show Float32.ofModel ⟨UInt32.ofBitVec (pack Format.binary32 (UnpackedFloat.unpack Format.binary32 bits.toBitVec)), _⟩ = _
+  congr 2
+  rw [pack_unpack (by decide) _ valid]
+
+theorem float32_isNaN_iff (x : Float32) :
+    x.isNaN = true ↔ (x.toBits.toNat / 2 ^ 23 % 2 ^ 8 = 255 ∧ x.toBits.toNat % 2 ^ 23 ≠ 0) := by
+  show x.toModel.unpack.isNaN = true ↔ _
+  rw [float32_unpack, unpackNat_isNaN]
+
+theorem float32_not_nan_pattern (x : Float32) (h : x.isNaN = false) : x.toBits.toNat % 2 ^ 31 ≤ 0x7F800000 := by
+  have : ¬ _ := fun hc => absurd ((float32_isNaN_iff x).mpr hc) (by rw [h]; decide)
+  have hlt := x.toBits.toNat_lt
+  simp only [Nat.reducePow] at *
+  omega
+
+theorem float32_isNaN_of_pattern (x : Float32) (h : x.isNaN = true) : 0x7F800000 < x.toBits.toNat % 2 ^ 31 := by
+  have := (float32_isNaN_iff x).mp h
+  simp only [Nat.reducePow] at *
+  omega
+
+theorem float32_toBits_ofBits (u : UInt32) (h : u.toNat % 2 ^ 31 ≤ 0x7F800000) : (Float32.ofBits u).toBits = u := by
+  show UInt32.ofBitVec (pack Format.binary32 (UnpackedFloat.unpack Format.binary32 u.toBitVec)) = u
+  rw [pack_unpack (by decide)]
+  apply valid_of_not_nan
+  show ¬ (u.toNat / 2 ^ 23 % 2 ^ 8 = 2 ^ 8 - 1 ∧ u.toNat % 2 ^ 23 ≠ 0)
+  simp only [Nat.reducePow] at *
+  omega
+
+theorem float32_toBits_ofBits_nat (b : Nat) (hb : b < 2 ^ 32) (h : b % 2 ^ 31 ≤ 0x7F800000) :
+    (Float32.ofBits (UInt32.ofNat b)).toBits.toNat = b := by
+  have h1 : (UInt32.ofNat b).toNat = b := by
+    rw [UInt32.toNat_ofNat']; exact Nat.mod_eq_of_lt hb
+  rw [float32_toBits_ofBits _ (by rw [h1]; exact h), h1]
+
+theorem float32_unpack_ofBits (u : UInt32) (h : u.toNat % 2 ^ 31 ≤ 0x7F800000) :
+    (Float32.ofBits u).toModel.unpack = unpackNat 23 8 u.toNat := by
+  rw [float32_unpack, float32_toBits_ofBits u h]
+
 end Rosu.FM
